@@ -18,7 +18,7 @@ for m in ids:
     r = out.get(m, {})
     caught = [c for c, v in r.items() if isinstance(v, dict) and v.get('exit') == 1]
     if not caught:
-        miss.append((m, meta['breaks_property'], sorted(r)))
+        miss.append((m, meta['breaks_property'], sorted(r), 'OBSOLETE: ' + meta['obsolete'][:90] if meta.get('obsolete') else ''))
 json.dump(out, open(os.path.join(V, 'seeded', 'MATRIX.json'), 'w'), indent=1, sort_keys=True)
 print('%d mutants, %d with a result, %d caught by at least one check' % (len(ids), len([m for m in ids if m in out]), len(ids) - len(miss)))
 for m in miss:
